@@ -299,6 +299,15 @@ pub fn corpus(thorough: bool) -> (Vec<Vec<u8>>, usize) {
             }
         }
     }
+    // powers of two, and the neighbours of every valid size
+    for n in 0..=34u32 {
+        texts.push(mk(format!("{}", 1u128 << n).as_bytes(), b"AB", b"CD", b""));
+    }
+    for n in 0..31u32 {
+        for d in [-2i128, -1, 1, 2, 3] {
+            texts.push(mk(format!("{}", (3i128 << n) + d).as_bytes(), b"AB", b"CD", b""));
+        }
+    }
     // spellings that are a valid block size modulo 2^32 (wrap-around of the accumulator), modulo 2^64, and
     // valid sizes with a digit appended / prepended
     for n in 0..31u32 {
